@@ -26,7 +26,8 @@ def run(tier, replay):
         events = vlib.read_ndjson(trace)
         for f in tv.fails:
             e = events[f["i"] - 1]
-            if not e.get("started"):
+            if not e.get("started") and not e.get("control_started"):
+                # neither the case nor its command-line-only control started: the environment, not C12
                 raise vlib.ToolError("a server did not start (not a verdict on C12): %s" % json.dumps(e)[:1500])
             def srcs(s):
                 return "".join(x[0] for x in ("env", "file", "cli") if s in (e["given"][x] or {}))
@@ -38,7 +39,7 @@ def run(tier, replay):
             "traces_validated_against_impl": len(events), "launches": len(events), "setting_observations": observed,
             "samples": [{"given": events[5]["given"], "observed": events[5]["obs"]}],
             "rule": "MC_Config: the four-step fold equals Effective for all pairs of settings x all subsets of sources (two spec mutants refuted); Gen_Config: 11 settings x 8 subsets of "
-                    "{environment, rws.config.toml, command line} (booleans over every value assignment) x 3 file styles, short/long flag, hyphen / [cors] table / root key spellings, "
+                    "{environment, rws.config.toml, command line} (booleans over every value assignment) x 4 file styles (plain, comments+single quotes, reordered+spaces, tight: glued comments, no blanks, CRLF), short/long flag, hyphen / [cors] table / root key spellings, "
                     "full configurations from every non-empty subset of sources, and the allow-all switch paired with every other CORS setting across sources; each is a real start of the "
                     "binary probed for bound address, thread count line, buffer echo and CORS headers",
         }
